@@ -41,14 +41,14 @@ example : ∃ σ', Evals {} 0 (.call (.prim (.int 5) (some (1, 2))) [.prim (.int
   ⟨_, fault_nonprocedure_direct (Evals.prim rfl) (EvalsArgs.cons (Evals.prim rfl) EvalsArgs.nil) rfl⟩
 
 /-- TAIL CALL: a user procedure's body ended in a pending call whose operator evaluates to a
-non-procedure: the trampoline stops with `nonProcedure`; the store is the one after operator and
-operands, the loop does not continue. -/
+non-procedure: the trampoline stops with `nonProcedure` at the operator's location (as the direct
+call does); the store is the one after operator and operands, the loop does not continue. -/
 theorem fault_nonprocedure_tail {σ lam cenv args env f targs tenv σ₁ fv σ₂ vs σ₃}
     (ha : arityOk lam.formals.fixed.length lam.formals.rest.isSome args.length = true)
     (hs : AppliesScheme σ lam cenv args (.ok (.tailCall f targs tenv)) σ₁)
     (hf : Evals σ₁ tenv f (.ok fv) σ₂) (hargs : EvalsArgs σ₂ tenv targs (.ok vs) σ₃)
     (hp : procArity fv = none) :
-    Applies σ (.closure lam cenv) args env (.error (.nonProcedure, none)) σ₃ :=
+    Applies σ (.closure lam cenv) args env (.error (.nonProcedure, f.loc)) σ₃ :=
   Applies.closure_tail_nonproc ha hs hf hargs hp
 
 /-- APPLY: `(apply x …)` with a non-procedure `x`: `spread_apply_arguments` reports `nonProcedure`,
@@ -101,13 +101,14 @@ theorem unbound_assign_iff_unbound_read {σ : Store} {ρ : Nat} {x : String} (v 
   · intro h; rw [Store.set_unbound v h]
 
 /-- assigning a name that no frame of the chain defines: the value expression HAS been evaluated;
-`unbound`, and the store is exactly the one after that evaluation (nothing is defined) -/
+`unbound` at the location the `set!` node carries, and the store is exactly the one after that
+evaluation (nothing is defined) -/
 theorem fault_unbound_assign {σ ρ x e l v σ₁} (he : Evals σ ρ e (.ok v) σ₁) (h : σ₁.lookup ρ x = none) :
-    Evals σ ρ (.assign x e l) (.error (.unbound, none)) σ₁ :=
+    Evals σ ρ (.assign x e l) (.error (.unbound, l)) σ₁ :=
   Evals.assign_unbound he (Store.set_unbound v h)
 
-example : Evals { frames := #[{ parent := none, defs := [("x", .nil)] }] } 0 (.assign "y" (.prim (.int 1) none) none)
-    (.error (.unbound, none)) { frames := #[{ parent := none, defs := [("x", .nil)] }] } :=
+example : Evals { frames := #[{ parent := none, defs := [("x", .nil)] }] } 0 (.assign "y" (.prim (.int 1) none) (some (3, 1)))
+    (.error (.unbound, some (3, 1))) { frames := #[{ parent := none, defs := [("x", .nil)] }] } :=
   fault_unbound_assign (Evals.prim rfl) (by decide)
 
 /-! ### wrong-typed arguments to native procedures -/
